@@ -73,6 +73,17 @@ def main():
             elif job['cmd'] == 'exec':
                 r = mod.execute(job['trace'], {'hashseed': hs})
                 res.update(r)
+            elif job['cmd'] == 'seq':
+                # a worker's history replayed in a fresh interpreter: every
+                # run in order, the result of the last one is reported
+                r = None
+                for sd in job['seeds']:
+                    _oracle._compile.cache_clear()
+                    trace = mod.generate(sd, job['tier'])
+                    r = mod.execute(trace, {'hashseed': hs})
+                res.update(r)
+                res['seed'] = job['seeds'][-1]
+                res['trace'] = trace
             elif job['cmd'] == 'gen':
                 res['trace'] = mod.generate(job['seed'], job['tier'])
             elif job['cmd'] == 'canary':
